@@ -40,10 +40,11 @@ func (node *tagMacroNode) call(ctx *ExecutionContext, args ...*Value) (*Value, e
 	argsCtx := make(Context)
 
 	// (in declaration order, not in the iteration order of the map)
-	for _, k := range node.argsOrder {
+	for idx, k := range node.argsOrder {
 		v := node.args[k]
-		if v == nil {
-			// User did not provided a default value
+		if v == nil || idx < len(args) {
+			// User did not provided a default value, or the call supplies this
+			// parameter (bound below): its default is not needed and not evaluated
 			argsCtx[k] = nil
 		} else {
 			// Evaluate the default value
